@@ -666,6 +666,15 @@ func (s *ScopedKeyManager) DeriveFromKeyPathCache(
 	s.mtx.Lock()
 	defer s.mtx.Unlock()
 
+	// Private keys are only handed out while the manager is unlocked and
+	// not watching-only. This includes keys that are still in the cache.
+	if s.rootManager.WatchOnly() {
+		return nil, managerError(ErrWatchingOnly, errWatchingOnly, nil)
+	}
+	if s.rootManager.IsLocked() {
+		return nil, managerError(ErrLocked, errLocked, nil)
+	}
+
 	// First, try to look up the key itself in the proper cache, if the key
 	// is here, then we don't need to do anything further.
 	privKeyVal, err := s.privKeyCache.Get(kp)
